@@ -273,18 +273,10 @@ std::string run(const std::string &op, vp::Toks &t) {
     for (long i = 0; i < k; ++i)
         s += (i ? "," : "") + std::to_string(used[i]);
     s += ' ' + std::to_string(post.out.size());
-    for (size_t i = 0; i < post.out.size(); ++i) {
-        const std::string &v = post.out[i].second, &v0 = pre.out[i].second;
-        auto size_of = [](const std::string &x) {
-            return x.substr(1, x.find(':') == std::string::npos ? x.npos : x.find(':') - 1);
-        };
-        // a failed element leaves freshly resized (uninitialised) storage: only the size is
-        // determinate, unless the size did not change (then Eigen keeps the old storage)
-        if (status != "ok" && v[0] == 'v' && size_of(v) != size_of(v0))
-            s += " vsize:" + size_of(v);
-        else
-            s += ' ' + v;
-    }
+    // every leaf is dumped completely (each setter stores a completely parsed value or nothing;
+    // vec_from_file's emplace() gives size 0)
+    for (size_t i = 0; i < post.out.size(); ++i)
+        s += ' ' + post.out[i].second;
     return s;
 }
 
